@@ -371,6 +371,8 @@ def run_case(ctx, kind, rng, idx):
         striped_io(ctx, rng, size, trajs, lens, wseed)
     if idx % 40 == 7:
         striped_io_big(ctx, rng, wseed)
+    if idx % 8 == 3:
+        striped_io_foreign_keys(ctx, rng, size, wseed)
 
     if size >= 2 and len(owners) >= 2 and (single or len(set(lens)) > 1):
         ctx.nontriv(size, tuple(lens), X.tobytes())
@@ -403,6 +405,52 @@ def check_distributed_medoids(ctx, X, results, serial, k, size, what):
         ctx.violation('mpi.%s.cost-increased' % what,
                       'cost %.12g after distributed sweeps > %.12g of the '
                       'k-centers start' % (c1, c0))
+
+
+def striped_io_foreign_keys(ctx, rng, size, wseed):
+    """An HDF5 file that was not written by ra.save: more than ten rows
+    under un-padded numbered names (arr_0 ... arr_12, as np.savez / mdtraj /
+    h5py scripts produce them) or arbitrary names.  The striped loader must
+    deal out the rows of the serial load of the same file."""
+    import tables
+    d = tempfile.mkdtemp(prefix='iokeys', dir=ctx.tmp)
+    try:
+        n = int(rng.integers(max(11, size), 16))
+        style = int(rng.integers(0, 3))
+        names = ['arr_%d' % i for i in range(n)] if style == 0 else (
+            ['t%d' % (i * 7 % 23) for i in range(n)] if style == 1 else
+            ['traj-%s' % c for c in 'zyxwvutsrqponmlk'[:n]])
+        rows = {nm: (np.arange(int(rng.integers(2, 9)), dtype=np.float64)
+                     + 100.0 * k) for k, nm in enumerate(names)}
+        fn = os.path.join(d, 'foreign.h5')
+        with tables.open_file(fn, 'w') as h:
+            for nm in names:
+                h.create_array('/', nm, rows[nm])
+        stride = int(rng.integers(1, 3))
+        serial = ra.load(fn, keys=Ellipsis, stride=stride)
+        srows = [np.asarray(serial[i]) for i in range(len(serial))]
+
+        def io_rank(r):
+            gl, data = mio.load_h5_as_striped(fn, stride=stride)
+            return list(gl), np.asarray(data)
+        world, results, errors = MPI.run_world(size, io_rank, seed=wseed + 6)
+        ctx.count('worlds_run')
+        ctx.count('foreign_key_files')
+        log_world(ctx, world, errors)
+        if world_errors(ctx, errors, 'striped-io-foreign-keys'):
+            return
+        for r, (gl, data) in enumerate(results):
+            mine = srows[r::size]
+            exp = np.concatenate(mine) if mine else np.zeros(0)
+            if [int(x) for x in gl] != [len(x) for x in srows] or \
+                    data.shape != exp.shape or not np.array_equal(data, exp):
+                ctx.violation('mpi.io.h5.rows[foreign-keys]',
+                              'rank %d of %d: striped load of a file with '
+                              'keys %s... does not deal out the rows of the '
+                              'serial load' % (r, size, names[:3]))
+                break
+    finally:
+        shutil.rmtree(d, ignore_errors=True)
 
 
 def striped_io_big(ctx, rng, wseed):
